@@ -7,22 +7,24 @@ import (
 
 // GenOpts shapes a random program.
 type GenOpts struct {
-	Keys       []string
-	Ops        int
-	BigVals    bool // values that span sectors (torn writes matter)
-	Compact    bool
-	Reopen     bool
-	Sync       bool
-	Reads      bool
-	CrashAt    bool // include crashat/powerat directives (multi-epoch)
-	Close      bool // end with Close
-	PowerDir   string
-	Inject     bool // writers at the yield points of Compact
-	Backup     bool // Backup calls with injected writers, each backup opened afterwards
-	Scans      bool // scans stepped call by call between writes
-	MoreReopen bool
-	Open2      bool // competing Open calls while the database is open
-	Churn      bool // start by filling most keys, then delete / re-put (index chains with holes)
+	Keys         []string
+	Ops          int
+	BigVals      bool // values that span sectors (torn writes matter)
+	Compact      bool
+	Reopen       bool
+	Sync         bool
+	Reads        bool
+	CrashAt      bool // include crashat/powerat directives (multi-epoch)
+	Close        bool // end with Close
+	PowerDir     string
+	Inject       bool // writers at the yield points of Compact
+	Backup       bool // Backup calls with injected writers, each backup opened afterwards
+	Scans        bool // scans stepped call by call between writes
+	MoreReopen   bool
+	Tear         bool // simulated unclean shutdowns with a torn tail
+	AfterCompact bool // C15: Sync, Put, Delete, Backup after every Compact
+	Open2        bool // competing Open calls while the database is open
+	Churn        bool // start by filling most keys, then delete / re-put (index chains with holes)
 }
 
 // GenProgram draws a random program.
@@ -144,6 +146,14 @@ func GenProgram(rng *rand.Rand, id string, cfg Cfg, g GenOpts) *Program {
 					o.Inject = injections(14)
 				}
 				p.Ops = append(p.Ops, o)
+				if g.AfterCompact {
+					nbk++
+					p.Ops = append(p.Ops, Op{Op: "sync"}, writeOp(), Op{Op: "del", K: pickLive()},
+						Op{Op: "backup", Dir: fmt.Sprintf("bk%d-%s", nbk, id)})
+					if rng.Intn(3) == 0 {
+						p.Ops = append(p.Ops, Op{Op: "reopen"})
+					}
+				}
 			}
 			if g.Backup && rng.Intn(2) == 0 {
 				nbk++
@@ -170,7 +180,9 @@ func GenProgram(rng *rand.Rand, id string, cfg Cfg, g GenOpts) *Program {
 				p.Ops = append(p.Ops, Op{Op: "sync"})
 			}
 		case x < 92:
-			if g.Reopen || g.MoreReopen {
+			if g.Tear && rng.Intn(2) == 0 {
+				p.Ops = append(p.Ops, Op{Op: "tear", V: fmt.Sprintf("\xff\xfegarbage%d", rng.Intn(100)), VL: []int{0, 3, 9, 40, 700}[rng.Intn(5)]})
+			} else if g.Reopen || g.MoreReopen {
 				p.Ops = append(p.Ops, Op{Op: "reopen"})
 			}
 		case x < 97:
@@ -198,4 +210,103 @@ func SmallCfg(rng *rand.Rand, syncw bool) Cfg {
 	frags := []float32{0.0001, 0.05, 0.25, 0.5}
 	return Cfg{FS: "crashfs", SyncW: syncw, MaxSeg: segs[rng.Intn(len(segs))], MinSeg: 1,
 		MinFrag: frags[rng.Intn(len(frags))], Strict: true}
+}
+
+// EmptyingProgram deletes everything and compacts: compaction removes every segment (C15).
+func EmptyingProgram(rng *rand.Rand, id string, cfg Cfg, keys []string) *Program {
+	p := &Program{ID: id, Cfg: cfg}
+	n := 1 + rng.Intn(len(keys))
+	for i := 0; i < n; i++ {
+		p.Ops = append(p.Ops, Op{Op: "put", K: keys[i], V: fmt.Sprintf("e%d_", i), VL: rng.Intn(3) * 150})
+	}
+	if rng.Intn(2) == 0 {
+		p.Ops = append(p.Ops, Op{Op: "reopen"})
+	}
+	for i := 0; i < n; i++ {
+		p.Ops = append(p.Ops, Op{Op: "del", K: keys[i]})
+	}
+	p.Ops = append(p.Ops, Op{Op: "compact"}, Op{Op: "sync"}, Op{Op: "count"})
+	switch rng.Intn(4) {
+	case 0:
+		p.Ops = append(p.Ops, Op{Op: "put", K: keys[0], V: "again"}, Op{Op: "del", K: keys[0]})
+	case 1:
+		p.Ops = append(p.Ops, Op{Op: "backup", Dir: "bk-" + id}, Op{Op: "backup_open", Dir: "bk-" + id})
+	case 2:
+		p.Ops = append(p.Ops, Op{Op: "compact"}, Op{Op: "sync"})
+	}
+	p.Ops = append(p.Ops, Op{Op: "reopen"}, Op{Op: "put", K: keys[0], V: "fin"}, Op{Op: "compact"}, Op{Op: "close"})
+	return p
+}
+
+// SizesProgram exercises the size limits and boundary lengths (C16).
+func SizesProgram(rng *rand.Rand, id string, cfg Cfg, huge bool) *Program {
+	p := &Program{ID: id, Cfg: cfg}
+	type kd struct {
+		tag string
+		n   int
+	}
+	keys := []kd{{"", 0}, {"a", 0}, {"ab", 0}, {"k255_", 255}, {"k4096_", 4096}, {"k65535_", 65535}, {"kb", 0}}
+	seg := int(cfg.MaxSeg)
+	vals := []int{0, 1, 2, 100, 494, 495, 496, 505, 511, 512, 513, 1024, seg - 512 - 30, seg - 512 - 16, seg - 512, seg, seg + 1, 2*seg + 7}
+	put := func(k kd, vl int, tag string) {
+		if vl < 0 {
+			vl = 0
+		}
+		o := Op{Op: "put", K: k.tag, KL: k.n, V: tag, VL: vl}
+		if vl == 0 && rng.Intn(2) == 0 {
+			o.V = "" // really empty value
+		}
+		p.Ops = append(p.Ops, o)
+	}
+	reads := func(k kd) {
+		p.Ops = append(p.Ops, Op{Op: "get", K: k.tag, KL: k.n}, Op{Op: "has", K: k.tag, KL: k.n}, Op{Op: "getappend", K: k.tag, KL: k.n, Buf: "pfx"})
+	}
+	overlong := []kd{{"o65536_", 65536}, {"o65537_", 65537}, {"ab", 65536 + 2}, {"a", 65536 + 1}, {"", 65536}, {"k255_", 65536 + 255}, {"x131072_", 131072}}
+	n := 0
+	for round := 0; round < 3; round++ {
+		for _, k := range keys {
+			if rng.Intn(3) == 0 {
+				continue
+			}
+			n++
+			put(k, vals[rng.Intn(len(vals))], fmt.Sprintf("s%d_", n))
+			if rng.Intn(3) == 0 {
+				reads(k)
+			}
+		}
+		// empty value is not a missing key
+		p.Ops = append(p.Ops, Op{Op: "put", K: "empty", V: ""}, Op{Op: "get", K: "empty"}, Op{Op: "has", K: "empty"}, Op{Op: "get", K: "missing"}, Op{Op: "has", K: "missing"})
+		// over-long keys: rejected Put, absent for Get/Has/Delete, never matching a shorter stored key
+		for _, k := range overlong {
+			switch rng.Intn(4) {
+			case 0:
+				p.Ops = append(p.Ops, Op{Op: "put", K: k.tag, KL: k.n, V: "nope"}, Op{Op: "count"})
+			case 1:
+				reads(k)
+			case 2:
+				p.Ops = append(p.Ops, Op{Op: "del", K: k.tag, KL: k.n}, Op{Op: "count"})
+			}
+		}
+		p.Ops = append(p.Ops, Op{Op: "readall"})
+		switch rng.Intn(4) {
+		case 0:
+			p.Ops = append(p.Ops, Op{Op: "reopen"})
+		case 1:
+			p.Ops = append(p.Ops, Op{Op: "compact"})
+		case 2:
+			p.Ops = append(p.Ops, Op{Op: "crashat", N: rng.Intn(4), Cut: rng.Intn(3)})
+		}
+		for _, k := range keys {
+			if rng.Intn(4) == 0 {
+				p.Ops = append(p.Ops, Op{Op: "del", K: k.tag, KL: k.n})
+			}
+		}
+	}
+	if huge {
+		// the 512 MiB limit itself
+		p.Ops = append(p.Ops, Op{Op: "put", K: "huge+1", V: "h_", VL: 512<<20 + 1}, Op{Op: "count"},
+			Op{Op: "put", K: "huge", V: "h_", VL: 512 << 20}, Op{Op: "get", K: "huge"}, Op{Op: "reopen"}, Op{Op: "get", K: "huge"}, Op{Op: "del", K: "huge"})
+	}
+	p.Ops = append(p.Ops, Op{Op: "readall"})
+	return p
 }
